@@ -42,7 +42,8 @@ def ext_fields():
 def gen_result(rng, kinds_pool, n_ext):
     spec = {}
     r = rng.random()
-    spec["duration"] = None if r < 0.15 else float(rng.choice([10.0, 60.0, 3600.0, float(np.round(rng.uniform(1, 5000), 2))]))
+    # (0 s is what the per-component results carry as their duration)
+    spec["duration"] = None if r < 0.15 else float(rng.choice([10.0, 60.0, 3600.0, float(np.round(rng.uniform(1, 5000), 2)), 0.0], p=[0.24, 0.24, 0.24, 0.24, 0.04]))
     spec["ext"] = [float(np.round(rng.uniform(0, 1000), int(rng.integers(0, 4)))) if rng.random() < 0.8 else 0.0 for _ in range(n_ext)]
     r = rng.random()       # a generating set at zero power reports a load of exactly 0.0
     spec["load"] = None if r < 0.25 else (0.0 if r < 0.4 else float(np.round(rng.uniform(0, 1), 3)))
@@ -230,6 +231,19 @@ def run_case(ctx, case, model=True):
 
     def merged(x, y, ox, oy, label):
         """merge on the implementation + predicate + correspondence; returns (obj, obs) or None"""
+        zero_total = (not freeze and ox["duration"] is not None and oy["duration"] is not None and ox["duration"] + oy["duration"] == 0
+                      and ox["load"] is not None and oy["load"] is not None)
+        if zero_total:
+            # both periods have no length but a generator load: the time-weighted load divides by zero (known finding D60)
+            try:
+                r = merge_impl(x, y, freeze)
+                lr = observe(r, names)["load"]
+                ok0 = lr is not None and np.isfinite(lr)
+            except Exception:
+                ok0 = False
+            if not ok0:
+                ctx.fail("predicate", "extend-zero-duration-load-ratio", f"{label}: loads {ox['load']} and {oy['load']} over 0 s + 0 s", where)
+            return None
         exp = expected_pair(ox, oy, freeze)
         try:
             r = merge_impl(x, y, freeze)
